@@ -238,6 +238,9 @@ fn ref_check_inner(c: &Case, obs: &mut Obs, w: Wants) -> Result<Outcome, Outcome
         obs.count("cases_with_matches");
         if ref_spans[0].len() > 1 {
             obs.count("cases_with_several_matches");
+            if c.flags.contains('m') && c.pattern.starts_with('^') {
+                obs.count("line_anchored_several_matches");
+            }
         }
     }
 
